@@ -31,4 +31,6 @@ Extraction "model.ml"
   FrontMatterSpec.fm_class
   FrontMatterSpec.delim_ok
   FrontMatterSpec.lf_count
+  FrontMatterSpec.spec_line_count
+  FrontMatterSpec.rest_has_bom
 .
